@@ -31,8 +31,8 @@ MANIFEST = {'engines': ['E1-enum', 'E2-explore'],
             'technique': 'stateless deviation-bounded exhaustive exploration of all trial histories of the real LRTDP vs exact optimum'}
 HEUR = ['bound', 'exact', 'exact+half', 'half_on_absorbing', 'exact_on_even', 'exact_on_odd']
 MARGINS = [0.3, 1e-2]
-SLAB = ['int', 'rev', 'str', 'mix', 'tup', 'fd']
-ALAB = ['ab', 'rev', 'ab', 'mix', 'rev', 'fd']
+SLAB = ['int', 'rev', 'str', 'mix', 'tup', 'fd', 'falsy']
+ALAB = ['ab', 'rev', 'ab', 'mix', 'rev', 'fd', 'falsy']
 
 
 def bounds(tier):
@@ -59,7 +59,7 @@ def items(tier, seed):
     for i, it in enumerate(spec_items(tier)):
         if i % 3 == 2:
             it = build.with_ns_rewards(it)
-        yield (it, (i + seed) % 6, (i + seed) % 2)
+        yield (it, (i + seed) % len(SLAB), (i + seed) % 2)
 
 
 def make_heuristic(kind, spec, V, mdp):
